@@ -21,7 +21,7 @@ func runC14(ctx *core.Ctx) {
 	ctx.Trusted = append(ctx.Trusted, "go/types, go/ssa", "library-fact table of the bounds engine", "bytes.Replace, bytes.TrimPrefix, utf8.Valid, append are total")
 	ctx.Rule("Q2", "Quote/Unquote refuse rather than guess: every nil-error return with non-nil data is dominated by the shape checks (Quote: last byte is newline, utf8.Valid; Unquote: first byte '>' and last byte newline)", 2)
 	ctx.Rule("Q3", "totality of NeedsQuote, Quote, Unquote (bounds engine over all reachable module functions)", 1)
-	ctx.Rule("Q6", "Quote prefixes every line: inside the loop over the input the '>' append is the true-successor of the test 'previous byte == newline' (the previous byte starting as a newline) with no further condition, that test is passed on every iteration, and every iteration copies its byte; any extra condition leaves some line without the prefix that Unquote removes from every line", 1)
+	ctx.Rule("Q6", "Quote prefixes every line: inside the loop over the input every path to the '>' append establishes a line start (the carried previous byte, starting as a newline, equals newline; or index == 0; or data[i-1] == newline), every path that copies a byte without passing the '>' append has every such test false, and every iteration copies its byte; any extra condition leaves some line without the prefix that Unquote removes from every line", 1)
 	ctx.Rule("Q7", "Unquote removes one prefix per line: no cut-set trimming (Trim/TrimLeft/TrimRight with '>' in the set) and no Replace with a non-negative count on the data; a line that began with '>' before quoting begins with '>>' after it, and only the first may go", 1)
 	ctx.Rule("Q4", "caller protocol: in txtar-c and testscript's script updater every value stored as a txtar file body is either the result of a successful Quote or a value for which NeedsQuote was consulted and returned false", 2)
 
@@ -47,6 +47,8 @@ func runC14(ctx *core.Ctx) {
 			el := variadicElems(c.Call.Args[1])
 			return len(el) == 1 && elem(el[0])
 		}
+		// "this byte starts a line" is written either with a carried previous byte (starting as a
+		// newline) or with the index: i == 0 || data[i-1] == newline
 		isPrev := func(v ssa.Value) bool {
 			ph, ok := v.(*ssa.Phi)
 			if !ok {
@@ -64,6 +66,50 @@ func runC14(ctx *core.Ctx) {
 			}
 			return nl == 1 && loads >= 1
 		}
+		isIdx := func(v ssa.Value) bool {
+			ph, _, d, ok := counter(v)
+			if !ok || d != 0 {
+				return false
+			}
+			in := counterInit(ph)
+			k, isK := ssax.ConstInt(in)
+			return isK && k == 0
+		}
+		isPrevElem := isElemLoad(data, func(ix ssa.Value) bool {
+			b, ok := ix.(*ssa.BinOp)
+			return ok && b.Op == token.SUB && isIdx(b.X) && isConstIntV(1)(b.Y)
+		})
+		type atom struct {
+			name string
+			is   func(f ssax.Fact) (holds bool, ok bool)
+		}
+		mk := func(name string, x, y func(ssa.Value) bool) atom {
+			return atom{name, func(f ssax.Fact) (bool, bool) {
+				if cmpFact([]ssax.Fact{f}, token.EQL, x, y) {
+					return true, true
+				}
+				if cmpFact([]ssax.Fact{f}, token.NEQ, x, y) {
+					return false, true
+				}
+				return false, false
+			}}
+		}
+		atoms := []atom{mk("previous byte == newline", isPrev, isConstIntV('\n')), mk("index == 0", isIdx, isConstIntV(0)), mk("data[i-1] == newline", isPrevElem, isConstIntV('\n'))}
+		present := make([]bool, len(atoms))
+		for _, b := range quote.Blocks {
+			if !g.Reach[b.Index] {
+				continue
+			}
+			for _, sc := range g.Succs[b.Index] {
+				if f, ok := g.EdgeFact(b.Index, sc); ok {
+					for k, a := range atoms {
+						if _, is := a.is(f); is {
+							present[k] = true
+						}
+					}
+				}
+			}
+		}
 		var gt, cp []*ssa.Call
 		g.Instrs(func(i ssa.Instruction) {
 			c, ok := i.(*ssa.Call)
@@ -77,39 +123,47 @@ func runC14(ctx *core.Ctx) {
 				cp = append(cp, c)
 			}
 		})
-		if len(gt) != 1 || len(cp) != 1 {
-			ctx.Unknown("Q6", "txtar.Quote#loop", quote.Pos(), "expected one append of '>' and one append of the current byte in Quote's loop, found %d and %d: shape not recognised", len(gt), len(cp))
+		complete := present[0] || (present[1] && present[2])
+		if len(gt) != 1 || len(cp) != 1 || !complete {
+			ctx.Unknown("Q6", "txtar.Quote#loop", quote.Pos(), "expected one append of '>' and one append of the current byte in a loop that tests for a line start (a carried previous byte, or index == 0 || data[i-1] == newline); found %d, %d, tests %v: shape not recognised", len(gt), len(cp), present)
 		} else {
-			blk := gt[0].Block().Index
-			l, inLoop := innermostLoop(g, blk)
 			why := ""
-			switch {
-			case !inLoop:
-				why = "the '>' append is not in a loop"
-			case len(g.Preds[blk]) != 1:
-				why = "the '>' append is reached from several places"
-			default:
-				pb := g.Preds[blk][0]
-				var own []ssax.Fact
-				if f, ok := g.EdgeFact(pb, blk); ok {
-					own = []ssax.Fact{f}
+			// only at a line start: every path to the '>' append establishes one of the atoms
+			if !onAllPaths(g, gt[0], nil, func(f ssax.Fact) bool {
+				for k, a := range atoms {
+					if holds, is := a.is(f); is && holds && present[k] {
+						return true
+					}
 				}
-				if !cmpFact(own, token.EQL, isPrev, isConstIntV('\n')) {
-					why = "the '>' append is not decided by 'previous byte == newline' alone (previous byte starting as a newline): some line starts get no prefix, and Unquote cannot restore them"
+				return false
+			}) {
+				why = "the '>' append can be reached without a line start having been established"
+			}
+			// at every line start: a path that reaches the copy without the '>' append has
+			// every line-start test false
+			gtBlock := gt[0].Block().Index
+			for k, a := range atoms {
+				if !present[k] {
+					continue
 				}
+				a := a
+				if !onAllPathsVia(g, cp[0], nil, func(f ssax.Fact) bool {
+					holds, is := a.is(f)
+					return is && !holds
+				}, func(b int) bool { return b == gtBlock }) {
+					why = "a byte can be copied without a '>' before it although '" + a.name + "' was not found false: some line starts get no prefix, and Unquote cannot restore them"
+				}
+			}
+			if l, inLoop := innermostLoop(g, cp[0].Block().Index); !inLoop {
+				why = "the copy is not in a loop"
+			} else {
 				for _, latch := range g.Preds[l.Header] {
-					if !l.Blocks[latch] {
-						continue
-					}
-					if !g.DomBlock(pb, latch) {
-						why = "an iteration can skip the line-start test"
-					}
-					if !g.DomBlock(cp[0].Block().Index, latch) {
+					if l.Blocks[latch] && !g.DomBlock(cp[0].Block().Index, latch) {
 						why = "an iteration can skip copying its byte"
 					}
 				}
 			}
-			ctx.Check(why == "", "Q6", "txtar.Quote#every-line-prefixed", gt[0].Pos(), "inside Quote's loop every line start gets exactly the '>' prefix and every byte is copied %s", why)
+			ctx.Check(why == "", "Q6", "txtar.Quote#every-line-prefixed", gt[0].Pos(), "inside Quote's loop a '>' is appended exactly at line starts and every byte is copied %s", why)
 		}
 	}
 	// ---- Q7: Unquote removes one prefix per line, never a run of them
